@@ -86,6 +86,15 @@ SegCrosses(c, dir, line, a, b) ==
         ahi == IF dir = 0 THEN SHi(I(c), c[1], Lp) ELSE SHi(J(c), c[1], Lp)
     IN  lo <= line /\ line < hi /\ a < ahi /\ alo <= b       \* some centre x in a..b has alo <= x < ahi
 
+\* the segment along grid line "line" (the lower boundary of that row / column) from grid vertex a
+\* to grid vertex b + 1 lies on cell boundaries: it grazes the cells whose closed square meets it
+GrazeTouches(c, dir, line, a, b) ==
+    LET lo == IF dir = 0 THEN SLo(J(c), c[1], Lp) ELSE SLo(I(c), c[1], Lp)
+        hi == IF dir = 0 THEN SHi(J(c), c[1], Lp) ELSE SHi(I(c), c[1], Lp)
+        alo == IF dir = 0 THEN SLo(I(c), c[1], Lp) ELSE SLo(J(c), c[1], Lp)
+        ahi == IF dir = 0 THEN SHi(I(c), c[1], Lp) ELSE SHi(J(c), c[1], Lp)
+    IN  lo <= line /\ line <= hi /\ a <= ahi /\ alo <= b + 1
+
 \* ---- cells among each other (closed squares) -----------------------------------------
 CellsTouch(c, d) ==
     LET m == IF c[1] > d[1] THEN c[1] ELSE d[1]
